@@ -1,1 +1,2 @@
 use crate::stdlib::num::NonZeroUsize;
+use crate::stdlib::fmt;
